@@ -289,6 +289,8 @@ def parBody (cfg : Cfg) (rec : State → Bytes → State × Out) (st : State) (p
   | (st, .skip) => ({ st with chunkDataLeft := 0 }, ⟨[], .nil⟩)
   | (st, .fail e) => (st, ⟨[], .err e⟩)
   | (st, .chunk chunkSize sig bufOffset) =>
+    -- `if sig == "" { return 0, ErrSignatureDoesNotMatch }` (repo fix 7242bc4)
+    if sig = [] then (st, ⟨[], .err .sigMismatch⟩) else
     let st := { st with parsedSig := sig }
     if chunkSize == 0 then finalChunk cfg st
     else
